@@ -307,9 +307,11 @@ LEVEL_TEXT = ('Lean theorems over the reader/construct model of parse (v2 and v3
               '(events are decodings of disjoint ascending 64-byte windows of the input), never_hangs (fuel of all loops never '
               'exhausted = each iteration progresses), reads_linear (read calls + bytes returned <= 5*len + 67), '
               'trunc_same_threadmap, pipeline_causal / traces_causal / feedGen_prefix (per-item stages preserve prefixes), '
-              'count_prefix (print_with_count literally); end to end over Model/EndToEnd for EVERY byte string, cut, filter '
+              'count_prefix (print_with_count literally); end to end over Model/EndToEnd for EVERY byte string (version-2 dump, '
+              'version-3 dump or neither), reading of the property lists, cut, filter '
               'configuration, code table and column setting: e2e_truncated_dump (cut header parses => whole header parses, '
-              'same thread map, events a prefix — incl. cuts inside the greedy zero padding), e2e_truncation_prefix '
+              'same thread map, events a prefix — incl. cuts inside the greedy zero padding of a v2 dump and inside header, '
+              'scans, thread-map chunk, chunks and blocks of a v3 dump), e2e_truncation_prefix '
               '(formatted trace lines of the cut are a prefix of those of the whole dump), e2e_truncation_monotone, '
               'e2e_traces_prefix, e2e_count_prefix, e2e_dump_is_parse (the composition\'s container step is parse); '
               'seekUntil_fuel_hang_old (pre-fix loop never terminates at EOF); tied to '
